@@ -92,6 +92,25 @@ func (vc *VC) entry() {
 		}
 		_ = i
 	}
+	// a by-value aggregate parameter is the callee's own copy: no other parameter and no reference stored in the
+	// entry heap (closedEntryHeap) denotes its storage
+	for _, p := range fn.Params {
+		if a := vc.vals[p]; a.K == KAgg {
+			for _, q := range fn.Params {
+				b := vc.vals[q]
+				if q == p {
+					continue
+				}
+				switch b.K {
+				case KPtr, KSlice, KString, KAgg:
+					vc.assume(sNot(sEq(a.C[0], b.C[0])))
+				case KIface:
+					vc.assume(sNot(sEq(a.C[0], b.C[1])))
+				}
+			}
+			vc.privateEntry = append(vc.privateEntry, a.C[0])
+		}
+	}
 	// typed pointers of identical element type are equal or do not overlap (no partially overlapping views)
 	for i, p := range fn.Params {
 		for j := i + 1; j < len(fn.Params); j++ {
